@@ -78,8 +78,9 @@ func evDeterm(t *Tracer, r Rng, name string, dedup, listInput bool, args []strin
 	bad := ""
 	call := func(label string, in []string) {
 		snap := append([]string(nil), in...)
+		in = spare(in)
 		o, res := guard(func() (any, error) { return f(in) })
-		if !sameStrings(in, snap) {
+		if !intact(in, snap) {
 			kept = false
 		}
 		if o != "ok" {
